@@ -3,7 +3,27 @@
 // (DESIGN.md appendix A). Field names here are the field names used in the TLA+ records.
 package world
 
-import "sort"
+import (
+	"bytes"
+	"encoding/json"
+	"sort"
+)
+
+// NodeMap is a map of node objects that also accepts the JSON form TLC gives the empty function ("[]").
+type NodeMap map[string]NodeObj
+
+func (m *NodeMap) UnmarshalJSON(b []byte) error {
+	if bytes.Equal(bytes.TrimSpace(b), []byte("[]")) || bytes.Equal(bytes.TrimSpace(b), []byte("null")) {
+		*m = NodeMap{}
+		return nil
+	}
+	var x map[string]NodeObj
+	if err := json.Unmarshal(b, &x); err != nil {
+		return err
+	}
+	*m = x
+	return nil
+}
 
 // Never is the abstract instant "never happened" (far past). A zero Go time projects to it.
 const Never = -100000
@@ -82,8 +102,8 @@ type Group struct {
 	Cfg      Cfg                `json:"cfg"`
 	Order    []string           `json:"order"` // order in which the node lister returns this group's nodes
 	Lag      bool               `json:"lag"`   // view differs from api
-	Api      map[string]NodeObj `json:"api"`
-	View     map[string]NodeObj `json:"view"`
+	Api      NodeMap            `json:"api"`
+	View     NodeMap            `json:"view"`
 	Pods     []Pod              `json:"pods"`
 	Asg      Asg                `json:"asg"`
 	Pc       Asg                `json:"pc"`
@@ -174,11 +194,11 @@ func (s *State) Clone() *State {
 	return &c
 }
 
-func cloneNodes(m map[string]NodeObj) map[string]NodeObj {
+func cloneNodes(m NodeMap) NodeMap {
 	if m == nil {
 		return nil
 	}
-	r := make(map[string]NodeObj, len(m))
+	r := make(NodeMap, len(m))
 	for k, v := range m {
 		r[k] = v
 	}
@@ -198,7 +218,7 @@ func (g Group) Clone() Group {
 }
 
 // ViewOf returns the lister view of the group.
-func (g Group) ViewOf() map[string]NodeObj {
+func (g Group) ViewOf() NodeMap {
 	if g.Lag {
 		return g.View
 	}
